@@ -1,13 +1,175 @@
 package main
 
 import (
+	"flag"
 	"fmt"
-	"golang.org/x/tools/go/packages"
+	"os"
+	"path/filepath"
+	"sort"
+	"strings"
+	"sync"
+	"time"
 )
 
+func osEnviron() []string { return os.Environ() }
+
+type Discharged struct {
+	O   *Obligation
+	Res SolverResult
+	OK  bool   // verdict matches expectation
+	Txt string // script (kept for failures)
+}
+
+func (en *Engine) discharge(rs []*UnitResult, workdir string, timeoutS int, agree bool) []*Discharged {
+	var out []*Discharged
+	var mu sync.Mutex
+	var wg sync.WaitGroup
+	for _, r := range rs {
+		for _, o := range r.Obls {
+			r, o := r, o
+			wg.Add(1)
+			go func() {
+				defer wg.Done()
+				script := r.Script(o)
+				res := runSolvers(workdir, o.Name, script, timeoutS, agree && o.Expect == "unsat")
+				d := &Discharged{O: o, Res: res, OK: res.Verdict == o.Expect}
+				if !d.OK {
+					d.Txt = script
+				}
+				mu.Lock()
+				out = append(out, d)
+				mu.Unlock()
+			}()
+		}
+	}
+	wg.Wait()
+	sort.Slice(out, func(i, j int) bool { return out[i].O.Name < out[j].O.Name })
+	return out
+}
+
 func main() {
-	cfg := &packages.Config{Mode: packages.NeedName | packages.NeedSyntax | packages.NeedTypes | packages.NeedTypesInfo | packages.NeedFiles | packages.NeedImports | packages.NeedDeps, Dir: "/repo", BuildFlags: []string{"-tags=verif"}}
-	pkgs, err := packages.Load(cfg, "./seq", "./rewriter")
-	fmt.Println(len(pkgs), err)
-	for _, p := range pkgs { fmt.Println(p.PkgPath, len(p.Syntax), p.Errors) }
+	if len(os.Args) < 2 {
+		fmt.Fprintln(os.Stderr, "usage: govc units | unit <name>... | check <property> [--tier quick|thorough] | selftest")
+		os.Exit(2)
+	}
+	cmd := os.Args[1]
+	fs := flag.NewFlagSet(cmd, flag.ExitOnError)
+	repo := fs.String("repo", "/repo", "repository root")
+	verif := fs.String("verif", "/verif", "verification root")
+	tier := fs.String("tier", "quick", "quick|thorough")
+	verbose := fs.Bool("v", false, "verbose")
+	keep := fs.Bool("keep", false, "keep SMT scripts")
+	replayPath := fs.String("replay", "", "replay file")
+	var pos []string
+	args := os.Args[2:]
+	for len(args) > 0 && !strings.HasPrefix(args[0], "-") {
+		pos = append(pos, args[0])
+		args = args[1:]
+	}
+	fs.Parse(args)
+	pos = append(pos, fs.Args()...)
+	_ = replayPath
+
+	t0 := time.Now()
+	prog, err := loadProgram(*repo)
+	if err != nil {
+		fmt.Fprintln(os.Stderr, "load:", err)
+		os.Exit(2)
+	}
+	en := &Engine{prog: prog, specDir: filepath.Join(*verif, "spec")}
+	if err := en.loadPreludes(); err != nil {
+		fmt.Fprintln(os.Stderr, "preludes:", err)
+		os.Exit(2)
+	}
+	workdir, _ := os.MkdirTemp("", "govc-")
+	if !*keep {
+		defer os.RemoveAll(workdir)
+	}
+	switch cmd {
+	case "units":
+		var names []string
+		for n, u := range prog.Units {
+			s := " "
+			if u.Spec != nil {
+				s = "*"
+			}
+			ct := ""
+			if u.CtxType != nil {
+				ct = " : " + u.CtxType.String()
+			}
+			names = append(names, fmt.Sprintf("%s %s%s", s, n, ct))
+		}
+		sort.Strings(names)
+		fmt.Println(strings.Join(names, "\n"))
+		fmt.Printf("loaded in %v; %d contract units\n", time.Since(t0), len(prog.Contracts.Order))
+	case "unit":
+		code := 0
+		for _, name := range pos {
+			var us []*UnitInfo
+			for n, u := range prog.Units {
+				if n == name || (strings.HasSuffix(name, "*") && strings.HasPrefix(n, strings.TrimSuffix(name, "*"))) {
+					us = append(us, u)
+				}
+			}
+			sort.Slice(us, func(i, j int) bool { return us[i].Name < us[j].Name })
+			if len(us) == 0 {
+				fmt.Println("no such unit:", name)
+				code = 2
+			}
+			for _, u := range us {
+				if u.Spec == nil && en.execSpecless(u) {
+					continue
+				}
+				r := en.verifyUnit(u)
+				fmt.Printf("== %s: %d obligations, %d paths\n", u.Name, len(r.Obls), r.Paths)
+				for _, ud := range r.Undecided {
+					fmt.Println("   UNDECIDED:", ud)
+					code = 2
+				}
+				ds := en.discharge([]*UnitResult{r}, workdir, 10, false)
+				for _, d := range ds {
+					mark := "ok  "
+					if !d.OK {
+						mark = "FAIL"
+						if code == 0 {
+							code = 1
+						}
+					}
+					if *verbose || !d.OK {
+						fmt.Printf("   %s %-60s %s (%s, %d ms) expect %s %s\n", mark, d.O.Name, d.Res.Verdict, d.Res.Solver, d.Res.Ms, d.O.Expect, d.O.Pos)
+						if !d.OK && d.O.Expect == "unsat" {
+							fn := filepath.Join(workdir, sanitize(d.O.Name)+".smt2")
+							fmt.Printf("        script: %s\n", fn)
+							if *verbose {
+								fmt.Println(trunc(d.Res.Output, 3000))
+							}
+						}
+					}
+				}
+				for _, a := range r.Assumed {
+					if *verbose {
+						fmt.Println("   assumed:", a)
+					}
+				}
+			}
+		}
+		if *keep {
+			fmt.Println("scripts in", workdir)
+		}
+		os.Exit(code)
+	case "check":
+		if len(pos) != 1 {
+			fmt.Fprintln(os.Stderr, "check needs one property id")
+			os.Exit(2)
+		}
+		os.Exit(en.checkProperty(pos[0], *tier, *verif, workdir, t0))
+	default:
+		fmt.Fprintln(os.Stderr, "unknown command", cmd)
+		os.Exit(2)
+	}
+}
+
+func (en *Engine) execSpecless(u *UnitInfo) bool {
+	x := en.newExec(u)
+	return x.effectiveSpec(u) == nil
 }
